@@ -98,6 +98,9 @@ class AbstractBFGS(AbstractMLE):
         try:
             search_internal_dict = self.paths.load_search_internal()
 
+            # a checkpoint which already holds every iteration is itself the result
+            search_internal = search_internal_dict
+
             x0 = search_internal_dict["x"]
             total_iterations = search_internal_dict["total_iterations"]
 
